@@ -636,6 +636,49 @@ fn main() {
       }
     }
   }
+  // ---- ordering across calendar boundaries: a comparison that works on calendar fields instead of the instant goes wrong
+  // only where the fields wrap (year ends - leap years in particular -, month ends, the leap day, midnight), so every year's
+  // boundaries are compared with their neighbours at second / minute / hour / day distance
+  let deltas: [i64; 17] = [-86_401, -86_400, -86_399, -3_601, -3_600, -61, -60, -1, 0, 1, 59, 60, 3_599, 3_600, 86_399, 86_400, 86_401];
+  for y in 0..=9999i64 {
+    let mut bounds: Vec<i64> = vec![days_from_civil(y, 1, 1) * 86_400, days_from_civil(y, 3, 1) * 86_400, days_from_civil(y, 12, 31) * 86_400];
+    if thorough {
+      for m in 2..=12 {
+        bounds.push(days_from_civil(y, m, 1) * 86_400);
+      }
+    }
+    for b in bounds {
+      k += 1;
+      if !args.mine(k) {
+        continue;
+      }
+      cx.rep.inc("order_boundary_blocks");
+      if (y % 4 == 0 && y % 100 != 0) || y % 400 == 0 {
+        cx.rep.inc("order_boundary_blocks_leap_year");
+      }
+      for da in deltas {
+        for db in deltas {
+          cx.order_case(b + da, b + db);
+        }
+      }
+    }
+  }
+  // pairs a whole number of (leap) years / days apart, and random close pairs
+  for _ in 0..(if thorough { 2_000_000 } else { 40_000 }) {
+    let a = rng.range_i64(MIN, MAX);
+    let d = match rng.below(6) {
+      0 => rng.range_i64(-120, 120),
+      1 => rng.range_i64(-2, 2) * 86_400 + rng.range_i64(-3_600, 3_600),
+      2 => rng.range_i64(-3, 3) * 365 * 86_400 + rng.range_i64(-86_400, 86_400),
+      3 => rng.range_i64(-3, 3) * 366 * 86_400 + rng.range_i64(-86_400, 86_400),
+      4 => rng.range_i64(-400, 400) * 86_400,
+      _ => rng.range_i64(-40_000_000, 40_000_000),
+    };
+    k += 1;
+    if args.mine(k) {
+      cx.order_case(a, a.saturating_add(d));
+    }
+  }
   cx.rep.note("anchors", json!(anchors.len()));
   cx.rep.finish();
 }
